@@ -19,6 +19,7 @@ import collections
 import functools
 import itertools
 import sys
+import threading as _threading
 from typing import Any, Optional
 
 from harness.core import Broken, Ctx, Failure, LeanDriver, Prop, Result
@@ -27,13 +28,13 @@ from harness.core import Broken, Ctx, Failure, LeanDriver, Prop, Result
 # scripts and histories
 # ---------------------------------------------------------------------------
 # script = {"init": "ok" | "fail_pre" | "fail_post", "body": [step, ...], "end": end}
-#   step: ["upd"] | ["sleep", d] | ["yield"] | ["until_stop", k] | ["wait_stop"] | ["peek"]
+#   step: ["upd"] | ["sleep", d] | ["yield"] | ["until_stop", k] | ["wait_stop"] | ["peek"] | ["status", v]
 #   end : ["ret"] | ["raise", "ValueError" | "BaseBoom" | "KeyboardInterrupt"] | ["raise_stop"]
-# history = list of ops: "start" "stop" "join" "is_running" ["set", v] "get" "pend" "enter" "exit"
+# history = list of ops: "start" "stop" "join" "is_running" ["set", v] "get" "pend" "status" "enter" "exit"
 # every scenario ends with `context.remove_rpc_object(proxy)` (release_rpc_object: stop + join unless joined).
 
 RAISES = ("ValueError", "BaseBoom", "KeyboardInterrupt")
-OPS_PLAIN = ("start", "stop", "join", "is_running", "get", "pend", "enter", "exit")
+OPS_PLAIN = ("start", "stop", "join", "is_running", "get", "pend", "status", "enter", "exit", "shutdown")
 
 
 class BaseBoom(BaseException):
@@ -58,8 +59,10 @@ def gen_script(rng) -> dict:
             body.append(["sleep", rng.choice([0.0, 0.5, 2.0])])
         elif k < 0.83:
             body.append(["until_stop", rng.randint(1, 3)])
-        elif k < 0.93:
+        elif k < 0.91:
             body.append(["wait_stop"])
+        elif k < 0.96:
+            body.append(["status", rng.randint(1, 9)])
         else:
             body.append(["peek"])
     e = rng.random()
@@ -70,6 +73,27 @@ def gen_script(rng) -> dict:
     else:
         end = ["raise_stop"]
     return {"init": init, "body": body, "end": end}
+
+
+HOOKS = ("prepare", "process", "iteration", "status", "pubSignals", "finalize")
+
+
+def gen_loop_script(rng) -> dict:
+    """A QMI_LoopTask: period, missed-period policy, per-call hook outcomes, update_status results, iteration costs."""
+    period = rng.choice([0.5, 1.0, 1.0, 2.0])
+    bound = rng.randint(1, 5)
+    hooks: dict = {}
+    if rng.random() < 0.45:
+        for _ in range(rng.choice([1, 1, 2])):
+            h = rng.choice(HOOKS)
+            k = 0 if h in ("prepare", "finalize") else rng.randint(0, bound)
+            hooks.setdefault(h, {})[str(k)] = rng.choice(["stop", "other", "other"])
+    cost = [rng.choice([0.0, 0.0, 0.25, period, period, 1.5 * period, 2.0 * period, 2.25 * period, 3.0 * period])
+            for _ in range(bound + 1)]
+    status = [rng.random() < 0.4 for _ in range(bound + 1)]
+    return {"kind": "loop", "init": "ok", "body": [], "end": ["loop"], "period": period,
+            "policy": rng.choice(["immediate", "skip", "terminate"]), "hooks": hooks, "status": status,
+            "cost": cost, "bound": bound}
 
 
 def gen_history(rng, max_len: int) -> list:
@@ -98,11 +122,15 @@ def gen_history(rng, max_len: int) -> list:
             return ["set", v]
         if k < 0.84:
             return "get"
-        if k < 0.91:
+        if k < 0.90:
             return "pend"
-        if k < 0.96:
+        if k < 0.93:
+            return "status"
+        if k < 0.965:
             return "enter"
-        return "exit"
+        if k < 0.99 or "shutdown" in hist:
+            return "exit"
+        return "shutdown"
 
     if shape < 0.15:      # context-manager form around a few ops
         hist.append("enter")
@@ -138,16 +166,32 @@ class Rec:
         self.thread = None
         self.runner = None
         self.task = None
-        self.cur_op: Optional[dict] = None   # runner operation being executed on the RPC worker
+        self.cur_ops: dict = {}              # thread id -> runner operation being executed by that thread
+        self.rpc_tid: Optional[int] = None   # the runner's RPC worker thread (the one that ran QMI_TaskRunner.__init__)
         self.body_blocked = False            # task body parked in sleep(None)
         self.sched = None
+
+    @property
+    def cur_op(self) -> Optional[dict]:
+        return self.cur_ops.get(_threading.get_ident())
+
+    @cur_op.setter
+    def cur_op(self, op: Optional[dict]) -> None:
+        if op is None:
+            self.cur_ops.pop(_threading.get_ident(), None)
+        else:
+            self.cur_ops[_threading.get_ident()] = op
+
+    def on_worker(self) -> bool:
+        """Is the calling thread the runner's RPC worker (operations serialised) or some other thread?"""
+        return self.rpc_tid is not None and _threading.get_ident() == self.rpc_tid
 
     # -- abstraction of the real state --------------------------------------
     def abs(self, settings_override=None) -> str:
         th, task, runner = self.thread, self.task, self.runner
         st = th._state.name if th is not None else "INITIAL"
         exc = 1 if (th is not None and th._exception is not None) else 0
-        stop, slot, settings = 0, "-", "-"
+        stop, slot, settings, status = 0, "-", "-", "-"
         if task is not None:
             ev = getattr(task, "_stop_requested", None)
             stop = 1 if (ev is not None and ev.is_set()) else 0
@@ -157,8 +201,10 @@ class Rec:
                 slot = ",".join(_val(x) for x in items) if items else "-"
             cur = settings_override if settings_override is not None else task.__dict__.get("_c10_settings")
             settings = _val(cur) if cur is not None else "-"
+            stv = getattr(task, "status", None)
+            status = _val(stv) if stv is not None else "-"
         joined = 1 if getattr(runner, "_joined", False) else 0
-        return f"{st} {exc} {stop} {slot} {settings} {joined}"
+        return f"{st} {exc} {stop} {slot} {settings} {joined} {status}"
 
     def ev(self, act: str, res: Optional[str], op: Optional[dict] = None, settings_override=None) -> None:
         if self.sched is not None and self.sched.aborting:
@@ -173,11 +219,23 @@ class Rec:
             return
         self.log.append({"kind": "mark", "m": m})
 
+    def lev(self, act: str, nxt: str = "?") -> None:
+        """an event of QMI_LoopTask.run (replayed on Model/LoopTask.lean)"""
+        if self.sched is not None and self.sched.aborting:
+            return
+        self.log.append({"kind": "lev", "act": act, "next": nxt})
+
 
 def _val(x) -> str:
     if isinstance(x, bool) or not isinstance(x, int):
         return "?" + type(x).__name__
     return str(x)
+
+
+def _ticks(t) -> str:
+    """virtual seconds -> integer ticks of 1/8 s (all periods, costs and sleeps of the scripts are multiples of 0.125)"""
+    x = t * 8
+    return str(int(round(x))) if abs(x - round(x)) < 1e-6 else "?frac(%r)" % (t,)
 
 
 CUR: Optional[Rec] = None
@@ -190,7 +248,20 @@ def _classes():
         return _CLASSES
     from harness import detsched as D
     from qmi.core.task import QMI_Task
+    from qmi.core.pubsub import QMI_RegisteredSignal
     from qmi.core.exceptions import QMI_TaskStopException
+
+    class TapSignal(QMI_RegisteredSignal):
+        """`sig_settings_updated` of the scripted task: logs the publication, then publishes for real."""
+        __slots__ = ()
+
+        def publish(self, *args):
+            rec = CUR
+            if rec is not None:
+                v = args[0] if len(args) == 1 else args
+                rec.mark("pub", v)
+                rec.ev("updPub", "val:" + ("-" if v is None else _val(v)))
+            return super().publish(*args)
 
     class TapCond(D.Condition):
         def __exit__(self, *a):
@@ -206,7 +277,7 @@ def _classes():
                 elif func == "start_task":
                     rec.ev("startKick", None, op)
                 elif func == "stop_task":
-                    rec.ev("stopRegion", None, op)
+                    rec.ev("stopRegion" if rec.on_worker() else "extStopRegion", None, op)
                 elif func == "get_state":
                     name = op["name"] if op is not None else "?"
                     act = {"ctor": "ctorGet", "start": "startCheck", "join": "join", "is_running": "isRunning"}.get(
@@ -221,7 +292,7 @@ def _classes():
             rec = CUR
             if rec is not None:
                 self._flag = True
-                rec.ev("stopSet", None, rec.cur_op)
+                rec.ev("stopSet" if rec.on_worker() else "extStopSet", None, rec.cur_op)
             return super().set()
 
     class TapDeque(collections.deque):
@@ -287,6 +358,8 @@ def _classes():
             self._stop_requested.__class__ = TapEvent
             old = self._settings_fifo
             self._settings_fifo = TapDeque(old, maxlen=old.maxlen)
+            if type(self.sig_settings_updated) is QMI_RegisteredSignal:
+                self.sig_settings_updated.__class__ = TapSignal
             rec.task = self
             if rec.script["init"] == "fail_post":
                 raise InitBoom("scripted init failure (after QMI_Task.__init__)")
@@ -324,6 +397,10 @@ def _classes():
                                 rec.body_blocked = False
                     elif k == "peek":
                         rec.mark("peek", self.stop_requested())
+                    elif k == "status":
+                        self.status = step[1]
+                        rec.mark("status_set", step[1])
+                        rec.ev("setStatus:" + _val(step[1]), "none")
                     else:
                         raise RuntimeError("bad script step %r" % (step,))
                 end = rec.script["end"]
@@ -345,7 +422,176 @@ def _classes():
             rec.mark("run_exit", "ret")
             rec.ev("runEnd:ret", "none")
 
-    _CLASSES.update(TapCond=TapCond, TapEvent=TapEvent, TapDeque=TapDeque, ScriptTask=ScriptTask)
+    from qmi.core.task import QMI_LoopTask, QMI_LoopTaskMissedLoopPolicy
+    RUN_CODE = QMI_LoopTask.run.__code__
+
+    def _from_run(depth=2):
+        return sys._getframe(depth).f_code is RUN_CODE
+
+    class TapStatusSignal(QMI_RegisteredSignal):
+        __slots__ = ()
+
+        def publish(self, *args):
+            rec = CUR
+            try:
+                r = super().publish(*args)
+            except D.SchedAbort:
+                raise
+            except BaseException:
+                if rec is not None:
+                    rec.mark("ltok", "s!")
+                    rec.lev("hook:pubStatus:otherExc")
+                raise
+            if rec is not None:
+                rec.mark("ltok", "s")
+                rec.lev("hook:pubStatus:ret")
+            return r
+
+    class ScriptLoop(QMI_LoopTask):
+        """QMI_LoopTask whose hooks follow `script["hooks"]` = {hook: {call index: "stop" | "other"}},
+        `script["status"]` (what update_status returns, per call), `script["cost"]` (virtual seconds spent in
+        loop_iteration, per call); `script["bound"]`: loop_iteration number `bound` raises the task-stop exception."""
+
+        @property
+        def settings(self):
+            return self.__dict__.get("_c10_settings")
+
+        @settings.setter
+        def settings(self, v):
+            self.__dict__["_c10_settings"] = v
+
+        def __init__(self, task_runner, name):
+            rec = CUR
+            sc = rec.script
+            pol = {"immediate": QMI_LoopTaskMissedLoopPolicy.IMMEDIATE, "skip": QMI_LoopTaskMissedLoopPolicy.SKIP,
+                   "terminate": QMI_LoopTaskMissedLoopPolicy.TERMINATE}[sc["policy"]]
+            super().__init__(task_runner, name, loop_period=sc["period"], policy=pol)
+            self._stop_requested.__class__ = TapEvent
+            old = self._settings_fifo
+            self._settings_fifo = TapDeque(old, maxlen=old.maxlen)
+            if type(self.sig_settings_updated) is QMI_RegisteredSignal:
+                self.sig_settings_updated.__class__ = TapSignal
+            if type(self.sig_status_updated) is QMI_RegisteredSignal:
+                self.sig_status_updated.__class__ = TapStatusSignal
+            self._calls = collections.Counter()
+            rec.task = self
+
+        # -- observation points of run() ------------------------------------------------------------
+        def stop_requested(self):
+            b = super().stop_requested()
+            rec = CUR
+            if rec is not None and _from_run():
+                nt = sys._getframe(1).f_locals.get("next_time")
+                rec.mark("ltok", "T1" if b else "T0")
+                rec.lev("testStop:%d" % (1 if b else 0), _ticks(nt) if nt is not None else "?")
+            return b
+
+        def update_settings(self):
+            rec = CUR
+            inrun = _from_run()
+            rec.mark("upd_call")
+            r = super().update_settings()
+            rec.mark("upd_ret", r, self.settings)
+            if inrun:
+                rec.mark("ltok", "U1" if r else "U0")
+                rec.lev("updDone:%d" % (1 if r else 0))
+            return r
+
+        def sleep(self, duration):
+            rec = CUR
+            inrun = _from_run()
+            try:
+                super().sleep(duration)
+            except QMI_TaskStopException:
+                if inrun:
+                    rec.mark("ltok", "W1")
+                    rec.lev("wake:1")
+                raise
+            if inrun:
+                rec.mark("ltok", "W0")
+                rec.lev("wake:0")
+
+        def _hook(self, name, tok):
+            """scripted outcome of the k-th call of hook `name`; logs the loop event at the hook's end"""
+            rec = CUR
+            k = self._calls[name]
+            self._calls[name] += 1
+            what = rec.script["hooks"].get(name, {}).get(str(k))
+            if name == "iteration":
+                cost = rec.script.get("cost", [])
+                if k < len(cost) and cost[k] > 0:
+                    D.TIME_SHIM.sleep(cost[k])            # virtual time passes inside loop_iteration
+                if what is None and k >= rec.script["bound"]:
+                    what = "stop"
+            if what == "stop":
+                rec.mark("ltok", tok + "!s")
+                rec.lev("hook:%s:stopExc" % name)
+                raise QMI_TaskStopException()
+            if what == "other":
+                rec.mark("ltok", tok + "!o")
+                rec.lev("hook:%s:otherExc" % name)
+                raise ValueError("scripted failure of " + name)
+            return k
+
+        def loop_prepare(self):
+            self._hook("prepare", "P")
+            CUR.mark("ltok", "P")
+            CUR.lev("hook:prepare:ret")
+
+        def process_new_settings(self):
+            self._hook("process", "p")
+            CUR.mark("process_sees", self.settings)
+            CUR.mark("ltok", "p")
+            CUR.lev("hook:process:ret")
+
+        def loop_iteration(self):
+            self._hook("iteration", "I")
+            CUR.mark("ltok", "I")
+            CUR.lev("hook:iteration:ret")
+
+        def update_status(self):
+            k = self._hook("status", "S")
+            st = CUR.script.get("status", [])
+            b = bool(st[k]) if k < len(st) else False
+            if b:
+                self.status = 100 + k
+                CUR.mark("status_set", 100 + k)
+                CUR.ev("setStatus:%d" % (100 + k), "none")
+            CUR.mark("ltok", "S1" if b else "S0")
+            CUR.lev("statusDone:%d" % (1 if b else 0))
+            return b
+
+        def publish_signals(self):
+            self._hook("pubSignals", "G")
+            CUR.mark("ltok", "G")
+            CUR.lev("hook:pubSignals:ret")
+
+        def loop_finalize(self):
+            self._hook("finalize", "F")
+            CUR.mark("ltok", "F")
+            CUR.lev("hook:finalize:ret")
+
+        def run(self):
+            rec = CUR
+            rec.mark("run_enter")
+            rec.ev("runEnter", "none")
+            try:
+                super().run()
+            except D.SchedAbort:
+                raise
+            except QMI_TaskStopException:
+                rec.mark("run_exit", "stopExc")
+                rec.ev("runEnd:stopExc", "none")
+                raise
+            except BaseException:
+                rec.mark("run_exit", "otherExc")
+                rec.ev("runEnd:otherExc", "none")
+                raise
+            rec.mark("run_exit", "ret")
+            rec.ev("runEnd:ret", "none")
+
+    _CLASSES.update(TapCond=TapCond, TapEvent=TapEvent, TapDeque=TapDeque, TapSignal=TapSignal, ScriptTask=ScriptTask,
+                    ScriptLoop=ScriptLoop, RUN_CODE=RUN_CODE)
     return _CLASSES
 
 
@@ -353,7 +599,7 @@ class _Taps:
     """Class-level wrappers, installed for the duration of a batch of scenarios and restored afterwards."""
 
     RUNNER_OPS = {"start": "start", "stop": "stop", "join": "join", "is_running": "is_running",
-                  "set_settings": "set", "get_settings": "get", "get_pending_settings": "pend"}
+                  "set_settings": "set", "get_settings": "get", "get_pending_settings": "pend", "get_status": "status"}
 
     def __enter__(self):
         from harness import detsched as D
@@ -399,6 +645,30 @@ class _Taps:
                     CUR.ev("threadEnd", "none")
         swap(T._TaskThread, "run", trun)
 
+        # _TaskThread.stop_task called directly (not through QMI_TaskRunner.stop): `_request_shutdown`
+        orig_stop_task = T._TaskThread.stop_task
+
+        @functools.wraps(orig_stop_task)
+        def tstop(self_):
+            rec = CUR
+            if rec is None or rec.cur_op is not None:
+                return orig_stop_task(self_)
+            op = {"name": "ext_stop_task", "events": []}
+            rec.cur_op = op
+            try:
+                r = orig_stop_task(self_)
+            except D.SchedAbort:
+                raise
+            except BaseException as e:
+                _close(op, "exc:" + type(e).__name__)
+                raise
+            else:
+                _close(op, "unit")
+                return r
+            finally:
+                rec.cur_op = None
+        swap(T._TaskThread, "stop_task", tstop)
+
         # QMI_TaskRunner.__init__
         orig_rinit = T.QMI_TaskRunner.__init__
 
@@ -408,6 +678,7 @@ class _Taps:
             if rec is None:
                 return orig_rinit(self_, *a, **k)
             op = {"name": "ctor", "events": []}
+            rec.rpc_tid = _threading.get_ident()
             rec.cur_op = op
             try:
                 orig_rinit(self_, *a, **k)
@@ -429,10 +700,9 @@ class _Taps:
             if evs:
                 evs[-1]["res"] = final
                 if op["name"] == "join" and CUR is not None:
-                    # `_joined` is private to the RPC worker and written after the `get_state` region of the same
-                    # operation: report the value the operation leaves behind
-                    j = "1" if getattr(CUR.runner, "_joined", False) else "0"
-                    evs[-1]["abs"] = evs[-1]["abs"].rsplit(" ", 1)[0] + " " + j
+                    # the rest of join() after its `get_state` region (`_joined = True`, raise / return) has no
+                    # yield point: one more event, logged here on the worker thread
+                    CUR.ev("joinSet", "none")
             op["final"] = final
 
         def wrap_op(name, short):
@@ -458,13 +728,16 @@ class _Taps:
                 else:
                     if short == "is_running":
                         final = "true" if r is True else ("false" if r is False else "?" + repr(r))
-                    elif short in ("get", "pend"):
+                    elif short in ("get", "pend", "status"):
                         final = "val:" + ("-" if r is None else _val(r))
-                        rec.ev("getSettings" if short == "get" else "getPending", final)
+                        rec.ev({"get": "getSettings", "pend": "getPending", "status": "getStatus"}[short], final)
                     else:
                         final = "unit" if r is None else "?" + repr(r)
                     _close(op, final)
                     rec.mark("op_end", name, final)
+                    if short == "stop" and rec.thread is not None and _threading.current_thread() is rec.thread:
+                        rec.mark("ltok", "K")                  # QMI_LoopTask, policy TERMINATE
+                        rec.lev("selfStopDone")
                     return r
                 finally:
                     rec.cur_op = outer
@@ -473,9 +746,41 @@ class _Taps:
 
         for name, short in self.RUNNER_OPS.items():
             wrap_op(name, short)
+
+        def wrap_comp(name, act):
+            orig = T.QMI_TaskRunner.__dict__[name]
+
+            @functools.wraps(orig)
+            def w(self_, *a, **k):
+                rec = CUR
+                if rec is not None and self_ is rec.runner:
+                    rec.ev(act, "none")
+                return orig(self_, *a, **k)
+            swap(T.QMI_TaskRunner, name, w)
+
+        wrap_comp("__exit__", "exitBegin")
+        wrap_comp("release_rpc_object", "releaseBegin")
+
+        # clock reads of QMI_LoopTask.run: the cooperative time shim of detsched, tapped for the duration of the batch
+        run_code = cls["RUN_CODE"]
+        shim_mono = type(D.TIME_SHIM).monotonic
+
+        def mono():
+            t = shim_mono(D.TIME_SHIM)
+            rec = CUR
+            if rec is not None and sys._getframe(1).f_code is run_code:
+                rec.mark("ltok", "C")
+                rec.lev("clock:" + _ticks(t))
+            return t
+        D.TIME_SHIM.monotonic = mono
+        self.shim = D.TIME_SHIM
         return self
 
     def __exit__(self, *a):
+        try:
+            del self.shim.monotonic
+        except AttributeError:
+            pass
         for owner, name, val in reversed(self.saved):
             setattr(owner, name, val)
 
@@ -510,6 +815,8 @@ def _do_op(p, op):
         return p.get_settings()
     if op == "pend":
         return p.get_pending_settings()
+    if op == "status":
+        return p.get_status()
     if op == "enter":
         type(p).__enter__(p)          # what the `with` statement calls
         return None
@@ -535,7 +842,7 @@ def run_case(case: dict) -> Obs:
         rec.sched = w.sched
         ctx = w.context("c10ctx")
         try:
-            p = ctx.make_task("t", cls["ScriptTask"])
+            p = ctx.make_task("t", cls["ScriptLoop" if case["script"].get("kind") == "loop" else "ScriptTask"])
         except D.SchedAbort:
             raise
         except BaseException as e:
@@ -543,9 +850,16 @@ def run_case(case: dict) -> Obs:
             rec.mark("make", "exc:" + type(e).__name__)
             return None
         rec.mark("make", "ok")
+        helpers = []
         for i, op in enumerate(history):
             obs.last_issued = i
             rec.mark("call", i, op)
+            if op == "shutdown":
+                # QMI_Thread.shutdown() -> _request_shutdown -> stop_task, from a thread of its own: not serialised
+                # with the runner's operations
+                helpers.append(w.spawn(rec.thread.shutdown, "shutdown"))
+                rec.mark("ret", i, op, "ok", None)
+                continue
             try:
                 r = _do_op(p, op)
             except D.SchedAbort:
@@ -558,6 +872,8 @@ def run_case(case: dict) -> Obs:
                 if w.sched.aborting:
                     raise D.SchedAbort()
                 rec.mark("ret", i, op, "ok", r)
+        for t in helpers:
+            t.join()
         obs.last_issued = len(history)
         rec.mark("call", len(history), "release")
         ctx.remove_rpc_object(p)
@@ -588,13 +904,19 @@ def run_case(case: dict) -> Obs:
     return obs
 
 
-def lines_of(obs: Obs) -> list:
+def lines_of(obs: Obs, script: Optional[dict] = None) -> list:
     lines = ["init"]
+    if script is not None and script.get("kind") == "loop":
+        lines.append("linit %s %s" % (_ticks(script["period"]), script["policy"]))
     for e in obs.log:
         if e["kind"] == "ev":
             lines.append(f"{e['act']}|{e['res'] if e['res'] is not None else 'unfinished'}|{e['abs']}")
+        elif e["kind"] == "lev":
+            lines.append(f"L|{e['act']}|{e['next']}")
     if obs.deadlock is not None:
         lines.append(f"blocked join {1 if obs.body_blocked else 0}")
+    elif any(e["kind"] == "mark" and e["m"][0] == "ret" and e["m"][2] == "release" for e in obs.log):
+        lines.append("end released")
     return lines
 
 
@@ -657,6 +979,9 @@ def oracle(case: dict, obs: Obs) -> list:
     stops = [i for i, op in enumerate(ops) if kind(op) in ("stop", "exit", "release")]
     first_start = starts[0] if starts else None
     first_stop = stops[0] if stops else None
+    # QMI_Thread.shutdown() issued from a helper thread: a stop that lands at an unknown moment after it was issued
+    shuts = [i for i, op in enumerate(ops) if kind(op) == "shutdown"]
+    shut_idx = shuts[0] if shuts else None
     # which start is entitled to succeed: the first one, provided no stop was issued before it
     good_start = first_start if (first_start is not None and (first_stop is None or first_start < first_stop)) else None
     if run_enters:
@@ -665,13 +990,20 @@ def oracle(case: dict, obs: Obs) -> list:
                         good_start not in pos_call else "run() entered before start() was called"))
     if good_start is None and run_enters:
         bad.append(("run-after-stop-first", "stop() came first, run() was invoked anyway"))
+    if run_enters and good_start is not None and good_start in result and result[good_start] != ("ok", None):
+        bad.append(("run-although-start-refused", f"start() gave {result[good_start]}, run() was invoked"))
     # --- start results ---------------------------------------------------------------------------
     for i in starts:
         if i not in result:
             continue
         r = result[i]
         if i == good_start:
-            if r != ("ok", None):
+            if shut_idx is not None and shut_idx < i:
+                # racing with the shutdown: accepted, refused, or (shutdown between the two regions of start)
+                # the `assert` of start_task — outside the property's quantifier
+                if r not in (("ok", None), "exc:QMI_UsageException", "exc:AssertionError"):
+                    bad.append(("start-racing-shutdown-odd-result", f"op {i}: {r}"))
+            elif r != ("ok", None):
                 bad.append(("first-start-failed", f"op {i}: {r}"))
         else:
             if r != "exc:QMI_UsageException":
@@ -690,6 +1022,8 @@ def oracle(case: dict, obs: Obs) -> list:
         r = result[i]
         # returned: the task must be over
         stopped_before_start = (good_start is None) and first_stop is not None and first_stop <= i
+        if shut_idx is not None and shut_idx < i and not run_enters:
+            stopped_before_start = True       # the shutdown's stop_task reached the task before any start did
         if run_enters:
             if exit_pos > pos_ret[i]:
                 bad.append(("join-returned-before-run-finished", f"op {i}: {r}"))
@@ -749,6 +1083,36 @@ def oracle(case: dict, obs: Obs) -> list:
                 bad.append(("settings-changed-without-update", f"holds {seen!r}, expected {want!r}"))
         else:
             bad.append(("update-not-bool", repr(rv)))
+    # publication of adopted settings: exactly one per successful update, carrying the adopted value, none otherwise
+    pubs = [(i, m[1]) for i, m in marks if m[0] == "pub"]
+    used = set()
+    for (c, (rpos, rv, seen)) in zip(upd_calls, upd_rets):
+        mine = [(i, v) for i, v in pubs if c < i < rpos]
+        used.update(i for i, _ in mine)
+        if rv is True:
+            if len(mine) != 1:
+                bad.append(("update-true-published-%d-times" % len(mine), f"update_settings() adopted {seen!r}"))
+            elif mine[0][1] != seen:
+                bad.append(("published-value-not-adopted", f"published {mine[0][1]!r}, task holds {seen!r}"))
+        elif mine:
+            bad.append(("published-without-update", f"update_settings() returned {rv!r}, published {[v for _, v in mine]}"))
+    open_upd_pos = upd_calls[-1] if len(upd_calls) > len(upd_rets) else None
+    for i, v in pubs:
+        if i not in used and not (open_upd_pos is not None and i > open_upd_pos):
+            bad.append(("published-outside-update", f"value {v!r}"))
+    # get_status: what the task body wrote last
+    writes = [(i, m[1]) for i, m in marks if m[0] == "status_set"]
+    for i, op in enumerate(ops):
+        if kind(op) == "status" and i in result:
+            r = result[i]
+            if r[0] != "ok":
+                bad.append(("get-status-raised", f"op {i}: {r}"))
+                continue
+            before = [v for j, v in writes if j < pos_call[i]]
+            during = [v for j, v in writes if pos_call[i] < j < pos_ret[i]]
+            allowed = ([before[-1]] if before else [None]) + during
+            if r[1] not in allowed:
+                bad.append(("get-status-not-last-written", f"op {i}: {r[1]!r}, allowed {allowed}"))
     # get_pending_settings / get_settings (runner-side view)
     last_posted = None
     for i, op in enumerate(ops):
@@ -779,6 +1143,8 @@ def oracle(case: dict, obs: Obs) -> list:
             taken = [s for (c, (rpos, rv, s)) in zip(upd_calls, upd_rets) if rv is True and c < pos_ret[i]]
             if r[1] is not None and r[1] not in taken:
                 bad.append(("get-settings-unknown-value", f"op {i}: {r[1]!r}, task took {taken}"))
+    if script.get("kind") == "loop":
+        bad += _loop_oracle(script, marks, run_exits, obs)
     # --- deadlock -----------------------------------------------------------------------------------------------
     if obs.deadlock is not None:
         i = obs.last_issued
@@ -792,6 +1158,8 @@ def oracle(case: dict, obs: Obs) -> list:
             stop_before = any(j <= i for j in stops)        # exit / release carry their own stop
             if k == "join":
                 stop_before = any(j < i for j in stops)
+            if shut_idx is not None and shut_idx < i:
+                stop_before = True       # the helper thread has run to completion before a deadlock is declared
             never_started = good_start is None or good_start > i
             if stop_before:
                 why = "stop() was issued before" if k == "join" else f"{k} = stop() followed by join() must end the task"
@@ -804,6 +1172,71 @@ def oracle(case: dict, obs: Obs) -> list:
         missing = [i for i in range(len(ops)) if i not in result]
         if missing:
             bad.append(("op-without-result", f"ops {missing}"))
+    return bad
+
+
+def _loop_oracle(script: dict, marks: list, run_exits: list, obs: "Obs") -> list:
+    """The documented shape of QMI_LoopTask.run, evaluated on the hook-call log of the real run."""
+    bad: list = []
+    toks = [m[1] for _, m in marks if m[0] == "ltok" and m[1] != "C"]
+    if not toks:
+        return bad
+    complete = bool(run_exits)
+    # 1. loop_finalize: exactly once iff loop_prepare returned, and it is the last thing run() does
+    nfin = sum(1 for t in toks if t.startswith("F"))
+    prepared = toks[0] == "P"
+    if not toks[0].startswith("P"):
+        bad.append(("loop-prepare-not-first", " ".join(toks[:6])))
+    if complete:
+        if prepared and nfin != 1:
+            bad.append(("loop-finalize-ran-%d-times" % nfin, " ".join(toks[-8:])))
+        if not prepared and nfin != 0:
+            bad.append(("loop-finalize-after-failed-prepare", " ".join(toks)))
+        if prepared and nfin == 1 and not toks[-1].startswith("F"):
+            bad.append(("loop-finalize-not-last", " ".join(toks[-6:])))
+    elif nfin > 1:
+        bad.append(("loop-finalize-ran-%d-times" % nfin, " ".join(toks[-8:])))
+    # 2. order inside the loop (the sequence documented in run()): what may follow what
+    follow = {
+        "P": {"T0", "T1"}, "T0": {"U0", "U1"}, "T1": {"F"}, "U0": {"I"}, "U1": {"p"}, "p": {"I"}, "I": {"S0", "S1", "S"},
+        "S0": {"G"}, "S1": {"s"}, "s": {"G"}, "G": {"W0", "W1", "K", "T0", "T1"}, "W0": {"T0", "T1"}, "W1": {"F"},
+        "K": {"T0", "T1"}, "F": set(),
+    }
+    for a, b in zip(toks, toks[1:]):
+        base = a.split("!")[0]
+        if "!" in a:                       # a hook raised: inside the try only loop_finalize may follow
+            ok = base != "P" and base != "F" and b.split("!")[0] == "F"
+            if base in ("P", "F"):
+                ok = False
+        else:
+            ok = b.split("!")[0] in {x for x in follow.get(base, set())} or (base == "I" and b.split("!")[0] == "S")
+        if not ok:
+            bad.append(("loop-order", f"{a} followed by {b} in {' '.join(toks)}"))
+            break
+    # 3. a self-stop only under policy TERMINATE, and the loop ends at its next test
+    for a, b in zip(toks, toks[1:]):
+        if a == "K" and (script["policy"] != "terminate" or b != "T1"):
+            bad.append(("loop-terminate-policy", f"K then {b}, policy {script['policy']}"))
+    # 4. how run() ended
+    if complete:
+        raised = [t for t in toks if "!" in t]
+        if not prepared:
+            want = "stopExc" if toks[0].endswith("!s") else "otherExc"
+        else:
+            in_try = [t for t in raised if not t.startswith("F")]
+            want = "otherExc" if (in_try and in_try[0].endswith("!o")) else "ret"
+            fin = [t for t in raised if t.startswith("F")]
+            if fin:
+                want = "stopExc" if fin[0].endswith("!s") else "otherExc"
+        if run_exits[0][1] != want:
+            bad.append(("loop-outcome", f"run() ended with {run_exits[0][1]}, hooks say {want}: {' '.join(toks)}"))
+    # 5. process_new_settings sees the settings just adopted
+    last_seen = None
+    for _, m in marks:
+        if m[0] == "upd_ret" and m[1] is True:
+            last_seen = m[2]
+        elif m[0] == "process_sees" and m[1] != last_seen:
+            bad.append(("loop-process-sees-stale-settings", f"{m[1]!r} vs adopted {last_seen!r}"))
     return bad
 
 
@@ -857,17 +1290,21 @@ class C10(Prop):
     driver = "drv_c10"
     modelled_not_verified = [
         "threading.Condition / Event / Thread.join semantics (as specified); under test they are the cooperative versions of harness/detsched.py",
-        "atomicity: one `with self._state_cond:` region = one action; `update_settings` split at its two deque operations "
-        "(`if fifo` / `fifo.pop()`), `self.settings = fifo.pop()` taken as one step (line granularity)",
+        "atomicity: one `with self._state_cond:` region = one action; `update_settings` split at `if fifo` / `fifo.pop()` (+ assignment, "
+        "one statement) / `publish`; join = `get_state` region + `_joined` write; everything else of a runner method has no yield point",
         "collections.deque(maxlen=1) as an `Option` slot (the harness reports the real deque contents; two elements never match)",
-        "the RPC layer between proxy and QMI_TaskRunner (C01–C03): runner operations are serialised on the RPC worker",
-        "signal publication inside update_settings (C07) and the wake-up of a task waiting on a condition inside stop_task (C11) are not modelled",
-        "`_request_shutdown` (stop_task issued by the Python-exit path, not serialised with runner operations) is not modelled",
+        "the RPC layer between proxy and QMI_TaskRunner (C01–C03): runner operations are serialised on the RPC worker; "
+        "delivery of sig_settings_updated / sig_status_updated after `publish` is called (C07)",
+        "the wake-up of a task waiting on a condition inside stop_task (C11)",
+        "QMI_LoopTask: clock values are integer ticks (the scripts use exact binary fractions); hook bodies are scripted "
+        "(return / raise task-stop / raise other); the loop model is sequential and is composed with the lifecycle model "
+        "by the driver (events of run() only while the lifecycle is inside run(); stop flag read = lifecycle stop flag)",
+        "QMI_TaskRunner.get_task_class_name and custom task-runner subclasses are not modelled",
     ]
 
     # -- generation -------------------------------------------------------------------------------
     def _gen_case(self, rng, max_len):
-        script = gen_script(rng)
+        script = gen_loop_script(rng) if rng.random() < 0.18 else gen_script(rng)
         history = gen_history(rng, max_len)
         pol = rng.random()
         case = {"script": script, "history": history, "seed": rng.randrange(1 << 30),
@@ -883,7 +1320,7 @@ class C10(Prop):
         with _Taps():
             for case in cases:
                 obs = run_case(case)
-                lines = lines_of(obs)
+                lines = lines_of(obs, case["script"])
                 spans.append((len(all_lines), len(lines), case, obs))
                 all_lines += lines
                 hist_kinds = {(o if isinstance(o, str) else o[0]) for o in case["history"]}
@@ -899,6 +1336,11 @@ class C10(Prop):
                 for e in obs.log:
                     if e["kind"] == "ev":
                         res.count("ev_" + e["act"].split(":")[0])
+                    elif e["kind"] == "lev":
+                        res.count("lev_" + ":".join(e["act"].split(":")[:2]) if e["act"].startswith("hook") else
+                                  "lev_" + e["act"].split(":")[0])
+                if case["script"].get("kind") == "loop":
+                    res.count("loop_policy_" + case["script"]["policy"])
                 if obs.deadlock is not None:
                     res.count("deadlocks_observed")
                 evl = [e for e in obs.log if e["kind"] == "ev"]
@@ -961,7 +1403,8 @@ class C10(Prop):
                           "prefixes (context-manager form, start…stop join, stop first); every scenario ends with "
                           "remove_rpc_object; non-trivial = history of ≥ 2 operations; distinct by (script, history, schedule)")
         n = ctx.scale(2600, 20000)
-        cases = [self._gen_case(ctx.rng, ctx.scale(7, 10)) for _ in range(n)]
+        random_cases = [self._gen_case(ctx.rng, ctx.scale(7, 10)) for _ in range(n)]
+        cases = []          # the fixed corpus runs first
         # a few fixed shapes every run: double start, stop first, join before start (expected to wait for ever)
         fixed = [
             ({"init": "ok", "body": [["upd"], ["wait_stop"]], "end": ["ret"]}, ["start", "start", ["set", 1], "stop", "join"]),
@@ -971,7 +1414,33 @@ class C10(Prop):
             ({"init": "ok", "body": [["upd"]], "end": ["raise", "ValueError"]}, [["set", 1], ["set", 2], "pend", "start", "join", "get"]),
             ({"init": "ok", "body": [["until_stop", 3]], "end": ["raise_stop"]}, ["enter", ["set", 1], "is_running", ["set", 2], "exit"]),
             ({"init": "fail_post", "body": [], "end": ["ret"]}, ["start"]),
+            # _request_shutdown racing with start / before start / while running; status; publication
+            ({"init": "ok", "body": [["wait_stop"]], "end": ["ret"]}, ["shutdown", "start", "is_running", "join"]),
+            ({"init": "ok", "body": [["upd"], ["wait_stop"]], "end": ["ret"]}, ["start", ["set", 1], "shutdown", "join"]),
+            ({"init": "ok", "body": [], "end": ["ret"]}, ["shutdown", "join", "start"]),
+            ({"init": "ok", "body": [["status", 3], ["upd"], ["status", 4], ["wait_stop"]], "end": ["raise_stop"]},
+             [["set", 1], "status", "start", "status", ["set", 2], "status", "exit", "status", "exit"]),
+            ({"init": "ok", "body": [["until_stop", 3]], "end": ["ret"]}, ["enter", "enter", "exit", "join", "join", "stop", "start"]),
         ]
+        def loop(period, policy, hooks=None, status=(), cost=(), bound=3):
+            return {"kind": "loop", "init": "ok", "body": [], "end": ["loop"], "period": period, "policy": policy,
+                    "hooks": hooks or {}, "status": list(status), "cost": list(cost), "bound": bound}
+        pols = ["immediate", "skip", "terminate"]
+        k = 0
+        for h in HOOKS:                                    # every hook raising either way, at its first and a later call
+            for what in ("stop", "other"):
+                for idx in ("0", "1"):
+                    if idx == "1" and h in ("prepare", "finalize"):
+                        continue
+                    fixed.append((loop(1.0, pols[k % 3], {h: {idx: what}}, status=[True, True, False], bound=3),
+                                  [["set", 1], "start", ["set", 2], "join", "status"]))
+                    k += 1
+        for pol in pols:                                   # missed-period boundaries: tts = 0, one tick early, exact multiples
+            for cost in ([1.0], [0.875], [1.125], [2.0, 0.0], [3.0], [3.125], [0.0, 2.875, 0.0]):
+                fixed.append((loop(1.0, pol, cost=cost, status=[False, True], bound=len(cost) + 1),
+                              ["start", ["set", 1], "is_running", "join"]))
+            fixed.append((loop(0.5, pol, cost=[0.5, 0.5], bound=4), ["enter", ["set", 1], "stop", "exit"]))
+            fixed.append((loop(2.0, pol, bound=50), ["start", ["set", 1], ["set", 2], "stop", "join"]))
         for script, hist in fixed:
             for s in range(ctx.scale(3, 12)):
                 cases.append({"script": script, "history": hist, "seed": ctx.rng.randrange(1 << 30),
@@ -985,7 +1454,7 @@ class C10(Prop):
         for _ in range(ctx.scale(250, 2000)):
             cases.append({"script": race, "history": rh, "seed": ctx.rng.randrange(1 << 30), "policy": "weighted",
                           "cp": None, "trace": True})
-        self._evaluate(cases, res, ctx)
+        self._evaluate(cases + random_cases, res, ctx)
         return res
 
     # -- systematic search ------------------------------------------------------------------------------
